@@ -99,6 +99,20 @@ impl UserDefinedDataWriter {
         self.publication_matched_status.current_count_change -= 1;
     }
 
+    /// Release the callers waiting for acknowledgments if every sample is acknowledged by the
+    /// remaining matched reliable readers (e.g. after a matched reader has been removed)
+    pub fn notify_acknowledged_waiters(&mut self) {
+        if self
+            .writer
+            .transport_writer
+            .is_change_acknowledged(self.writer.last_change_sequence_number)
+        {
+            for n in self.wait_for_acknowledgments_notification.drain(..) {
+                n.send(Ok(()));
+            }
+        }
+    }
+
     pub fn get_offered_deadline_missed_status(&mut self) -> OfferedDeadlineMissedStatus {
         let status = self.offered_deadline_missed_status.clone();
         self.offered_deadline_missed_status.total_count_change = 0;
